@@ -323,8 +323,11 @@ class TimeRecurrence:
                 iterations, seconds_since = divmod(
                     (timepoint - self._start_point).get_seconds(),
                     self._duration.get_seconds())
-                return timepoint + (self._duration - Duration(
+                next_timepoint = timepoint + (self._duration - Duration(
                     seconds=floor(seconds_since)))
+                if self._get_is_in_bounds(next_timepoint):
+                    return next_timepoint
+                return None
             else:
                 # Since duration is inexact, we have to iterate
                 current = self._start_point
